@@ -86,3 +86,34 @@ Proof.
   intros Hin. pose proof (filter_nil_forall _ _ bad_undo2_nil _ Hin) as Hb. cbv beta iota in Hb.
   apply negb_false_iff, andb_true_iff in Hb. destruct Hb as [_ Hb]. apply run2_ext, agree2_eq, Hb.
 Qed.
+
+(* ---- pair order in the backward dispatch ----
+   undo of `G a b c d ...` must undo the LAST pair first. A routine that walks the pairs in forward order (reverse flag
+   false) is only right when applications of the routine on overlapping pairs commute; that is a finite check on three
+   qubits (all 128 local inputs x the 6 ways two ordered pairs can overlap). *)
+Definition t3 := (bool * bool * bool * bool * bool * bool * bool)%type.
+Definition ap01 (f : bool -> bool -> bool -> bool -> bool -> t2) (v : t3) : t3 :=
+  let '(x0,z0,x1,z1,x2,z2,s) := v in let '(a,b,c,d,s') := f x0 z0 x1 z1 s in (a,b,c,d,x2,z2,s').
+Definition ap10 f (v : t3) : t3 :=
+  let '(x0,z0,x1,z1,x2,z2,s) := v in let '(c,d,a,b,s') := f x1 z1 x0 z0 s in (a,b,c,d,x2,z2,s').
+Definition ap12 f (v : t3) : t3 :=
+  let '(x0,z0,x1,z1,x2,z2,s) := v in let '(a,b,c,d,s') := f x1 z1 x2 z2 s in (x0,z0,a,b,c,d,s').
+Definition ap21 f (v : t3) : t3 :=
+  let '(x0,z0,x1,z1,x2,z2,s) := v in let '(c,d,a,b,s') := f x2 z2 x1 z1 s in (x0,z0,a,b,c,d,s').
+Definition ap02 f (v : t3) : t3 :=
+  let '(x0,z0,x1,z1,x2,z2,s) := v in let '(a,b,c,d,s') := f x0 z0 x2 z2 s in (a,b,x1,z1,c,d,s').
+Definition ap20 f (v : t3) : t3 :=
+  let '(x0,z0,x1,z1,x2,z2,s) := v in let '(c,d,a,b,s') := f x2 z2 x0 z0 s in (a,b,x1,z1,c,d,s').
+Definition all7 : list t3 :=
+  flat_map (fun '(x0,z0,x1,z1,s) => flat_map (fun x2 => map (fun z2 => (x0,z0,x1,z1,x2,z2,s)) bools) bools) all5.
+Definition t3_eqb (a b : t3) : bool :=
+  let '(a0,a1,a2,a3,a4,a5,a6) := a in let '(b0,b1,b2,b3,b4,b5,b6) := b in
+  Bool.eqb a0 b0 && Bool.eqb a1 b1 && Bool.eqb a2 b2 && Bool.eqb a3 b3 && Bool.eqb a4 b4 && Bool.eqb a5 b5 && Bool.eqb a6 b6.
+Definition commute_on (g h : t3 -> t3) : bool := forallb (fun v => t3_eqb (g (h v)) (h (g v))) all7.
+Definition self_commutes_on_overlaps (f : bool -> bool -> bool -> bool -> bool -> t2) : bool :=
+  let a := ap01 f in
+  commute_on a (ap10 f) && commute_on a (ap12 f) && commute_on a (ap21 f) && commute_on a (ap02 f) && commute_on a (ap20 f).
+Definition bad_undo_order :=
+  filter (fun '(g, f, rev) => negb (rev || self_commutes_on_overlaps f)) pauliref_undo2.
+Theorem pauliref_undo_pair_order_ok : names2 bad_undo_order = [].
+Proof. vm_compute. reflexivity. Qed.
